@@ -16,7 +16,7 @@ def prop(pid):
     return deco
 
 
-def _exec_check(run, mc_jobs, gen_jobs, rand_family, rand_n, chain=1, sample=None, rule="", keys=False):
+def _exec_check(run, mc_jobs, gen_jobs, rand_family, rand_n, chain=1, sample=None, rule="", keys=False, extra=None):
     rng = random.Random(run.seed)
     X.self_test(run)
     for name, kw in mc_jobs:
@@ -28,6 +28,8 @@ def _exec_check(run, mc_jobs, gen_jobs, rand_family, rand_n, chain=1, sample=Non
     ns1, _ = X.run_and_validate(run, sessions, "gen", keys)
     binary = run.go_build("execdrv")
     rs = X.random_sessions(run, binary, rand_n, rand_family, run.seed)
+    if extra:
+        rs += extra(rng)
     ns2, _ = X.run_and_validate(run, rs, "rand", keys)
     run.cov["random_sessions"] = len(rs)
     run.cov["evaluations"] = ns1 + ns2
@@ -121,7 +123,24 @@ def c11(run):
     mc = [("mc_result", dict(names="Names2", sal="Sal2", dags="Dags22", nm="NMq",
                              methods=["Execute", "ExecuteConcurrent", "ExecuteMixModel", "ExecuteInverseMixModel",
                                       "ExecuteNSortMConcurrent", "ExecuteDAGModel"]))]
-    return _exec_check(run, mc, groups, "result", T(run, 400, 6000), chain=3, sample=T(run, 6000, 60000), keys=True,
+    def burst_sessions(rng):
+        """Many rules returning at the same moment (exit-burst steering): concurrent writers of the result map."""
+        out = []
+        for i in range(T(run, 160, 2500)):
+            n = rng.randint(6, 12)
+            rules = [{"name": "r%d" % (j + 1), "sal": rng.randint(-3, 3), "tpl": rng.choice(["A", "B"])} for j in range(n)]
+            beh = {r["name"]: ("topret" if r["tpl"] == "B" else rng.choice(["ret", "ret", "retnil"])) for r in rules}
+            names = [r["name"] for r in rules]
+            k = rng.randint(1, n - 1)
+            m, extra = rng.choice([("ExecuteConcurrent", {}), ("ExecuteDAGModel", {"dag": [names]}),
+                                   ("ExecuteNConcurrentMConcurrent", {"n": k, "m": n - k}), ("ExecuteMixModel", {}),
+                                   ("ExecuteInverseMixModel", {}), ("ExecuteSelectedRulesConcurrent", {"names": names})])
+            c = {"method": m, "via": "direct", "b": True, "names": [], "n": 0, "m": 0, "dag": [], "beh": beh, "tagset": []}
+            c.update(extra)
+            out.append({"id": 2000000 + i, "target": rng.choice(["engine", "pool"]), "gated": True, "burst": True,
+                        "rules": rules, "calls": [c, dict(c)]})
+        return out
+    return _exec_check(run, mc, groups, "result", T(run, 400, 6000), chain=3, sample=T(run, 6000, 60000), keys=True, extra=burst_sessions,
                        rule="sessions = sequences of up to 3 calls of different methods on one engine / one pool over the same rule set, "
                             "every rule independently not returning / returning a value / returning nil / failing before or inside "
                             "its return (nested and top-level); scenarios enumerated by TLC (<=3 rules) plus seeded random call "
@@ -170,3 +189,16 @@ def c14(run):
                        rule="sessions enumerated by TLC: the four stop-tag variants x rule sets (<=3 rules, tied saliences) x which rule "
                             "(or none) sets the tag x outcomes x error policy; the tag-less case is the same plan without the gate, so "
                             "'never set' traces are validated against the identical-behaviour requirement; plus seeded random sessions")
+
+
+import bodyfam as B  # noqa: E402
+
+
+@prop("C15")
+def c15(run):
+    return B.check_c15(run)
+
+
+@prop("C18")
+def c18(run):
+    return B.check_c18(run)
